@@ -15,7 +15,7 @@ RULE = ("(A) random ODE / DAE models (vector and matrix states, controls, algebr
         "rk is exact on integrator chains): der applied j<=k times is sampled with refine; on every control interval the "
         "j-th signal must be the exact derivative of the polynomial fitted through the (j-1)-th, signals 0..k-1 are "
         "continuous across nodes, the k-th is the piecewise-constant decision; the (k+1)-th application and der of an "
-        "order-0 control must raise.  (S) expressions of a state, a bspline variable or parameter (order 1..3) and time under MultipleShooting / DirectCollocation: der(e) sampled on the control grid must equal e_x f + e_w der(w) + e_t computed by CasADi AD on independent symbols from the sampled ingredients.  non-trivial = at least one comparison with a non-zero derivative; distinct = "
+        "order-0 control must raise.  (S) expressions of a state, a bspline variable or parameter (order 1..3) and time under MultipleShooting / DirectCollocation: der(e) sampled on the control grid must equal e_x f + e_w der(w) + e_t computed by CasADi AD on independent symbols from the sampled ingredients.  (Q) expressions of a state(quad=True), a state and time: der(e) = e_x f + e_q g + e_t with g the declared integrand.  non-trivial = at least one comparison with a non-zero derivative; distinct = "
         "feature signature of the model/expression or (order, N, M, grid).")
 ASSUMPTIONS = ["finite differences with tolerance 1e-6 (relative)", "numpy evaluation of the declared right-hand side"]
 ANCHORS = ["stage:Stage.der", "stage:Stage.control"]
@@ -43,6 +43,9 @@ def gen_cases(rng, tier):
                       "M": rng.choice([1, 2, 3]), "nu": rng.choice([1, 1, 2]),
                       "grid": ocpgen.gen_grid(rng, ["uniform", "geometric", "function"], 3),
                       "t0": ocpgen.rnd(rng, -1, 1), "T": ocpgen.rnd(rng, 0.5, 3), "refine": rng.choice([4, 5, 6]),
+                      "seed": rng.getrandbits(32)})
+    for i in range(8 if tier == "quick" else 80):
+        cases.append({"kind": "Q", "form": i % 4, "a": ocpgen.rnd(rng, -1, 1), "c": ocpgen.rnd(rng, -1.5, 1.5),
                       "seed": rng.getrandbits(32)})
     ns = 30 if tier == "quick" else 400
     for i in range(ns):
@@ -218,6 +221,52 @@ def run_S(case):
                 return res
     res["nontrivial"] = res["counters"]["points"] > 0
     res["sample"] = {"cls": case["cls"], "order": case["order"], "form": case["form"], "N": case["N"], "decl": case.get("decl", "wv")}
+    return res
+
+
+def run_Q(case):
+    """quadrature states are states: der(q) is the declared integrand, and the chain rule runs through them"""
+    import casadi as ca
+    import rockit
+    res = {"sig": "Q|form%d" % case["form"], "evals": 0, "violations": [], "counters": {"points": 0}}
+    a, c = case["a"], case["c"]
+    try:
+        ocp = rockit.Ocp(t0=0, T=1)
+        x = ocp.state()
+        u = ocp.control()
+        p = ocp.parameter()
+        q = ocp.state(quad=True)
+        f = a * x + ca.sin(ocp.t) * p
+        g = x ** 2 + c * ocp.t
+        ocp.set_der(x, f)
+        ocp.set_der(q, g)
+        forms = [q, q * x, ca.sin(q) + c * x * ocp.t, ca.vertcat(q ** 2, x * ocp.t + q)]
+        e = forms[case["form"]]
+        de = C.call("der(e)", ocp.der, e)
+        F = C.call("der(e) as a function", ca.Function, "d", [x, q, p, ocp.t], [de])
+    except C.RockitRaised as ex:
+        res["violations"].append(C.exc_violation(ID, ex, "Q"))
+        return res
+    xs, qs, ps, ts = [ca.MX.sym(n) for n in ("x", "q", "p", "t")]
+    fs = a * xs + ca.sin(ts) * ps
+    gs = xs ** 2 + c * ts
+    es = [qs, qs * xs, ca.sin(qs) + c * xs * ts, ca.vertcat(qs ** 2, xs * ts + qs)][case["form"]]
+    R = ca.Function("r", [xs, qs, ps, ts], [ca.jacobian(es, xs) @ fs + ca.jacobian(es, qs) @ gs + ca.jacobian(es, ts)])
+    rng = np.random.default_rng(case["seed"])
+    for it in range(5):
+        v = rng.standard_normal(4)
+        got = np.array(F(*v)).reshape(-1)
+        want = np.array(R(*v)).reshape(-1)
+        res["evals"] += 1
+        res["counters"]["points"] += 1
+        if np.max(np.abs(got - want)) > 1e-10 * (1 + np.max(np.abs(want))):
+            res["violations"].append({
+                "kind": "der-quadrature-state", "mech": "C16|Q|der-through-quadrature-state",
+                "detail": "form %d at (x, q, p, t)=%s: der(e)=%s, e_x f + e_q g + e_t=%s (g = declared integrand of the "
+                          "quadrature state)" % (case["form"], C.short(v), C.short(got), C.short(want))})
+            return res
+    res["nontrivial"] = True
+    res["sample"] = {"family": "quadrature state", "form": case["form"]}
     return res
 
 
@@ -447,4 +496,4 @@ def run_B(case):
 
 
 def run_case(case):
-    return {"A": run_A, "B": run_B, "S": run_S}[case["kind"]](case)
+    return {"A": run_A, "B": run_B, "S": run_S, "Q": run_Q}[case["kind"]](case)
